@@ -115,7 +115,7 @@ def post_inv(call):
     if name == 'Path':
         with monitor.suspended():
             got = float(curve.length(0, t)) if 0 < t < 1 else (0.0 if t == 0 else L)
-        if not (abs(got - s) <= tol + 1e-9 * L):
+        if not (abs(got - s) <= max(4 * s_tol, 1024 * EPS * L)):
             ctx.violation('not-inverse/Path', 'arc length from 0 to ilength(s) differs from s',
                           {'s': s, 'T': t, 'length(0,T)': got, 'L': L, 'tol': tol})
         return True
@@ -134,7 +134,9 @@ def post_inv(call):
     tol += 2 * e
     with monitor.suspended():
         own = float(curve.length(0, t, error=call.a.get('error'), min_depth=call.a.get('min_depth'))) if 0 < t < 1 else (0.0 if t == 0 else L)
-    if not (abs(own - s) <= max(s_tol, 1e-9 * L) + 1e-9 * L):
+    # "to within the requested tolerance or the floating-point resolution of L, whichever is larger": in the
+    # library's own measure this is exactly what the search iterates on, so it can be held to it
+    if not (abs(own - s) <= max(2 * s_tol, 256 * EPS * L)):
         ctx.violation('not-inverse-of-length/' + name, 'length(0, ilength(s)) differs from s',
                       {'s': s, 't': t, 'length(0,t)': own, 'L': L, 'curve': gen.seg_spec(curve)})
         return True
